@@ -171,6 +171,12 @@ def check_retention(prog, r):
             for x in walk(e):
                 if isinstance(x, tuple) and x and x[0] == "agg" and x[1] == "closure" and x[2] in prog.ix:
                     calls += [prog.name(k) for k in prog.callees(x[2]) if k in prog.ix]
+            if not any(c.endswith("gr_on_disconnect") for c in calls):
+                # the value may be put together by a `match` / several lets: follow every definition that can reach it
+                from ..util import back_slice_calls
+                q = t["args"][idx].get("c") or t["args"][idx].get("m")
+                if q is not None:
+                    calls += list(back_slice_calls(prog, fv, [q["l"]]))
             if any(c.endswith("gr_on_disconnect") for c in calls):
                 r.ok("session_loop: %s derives from gr_on_disconnect(..)" % what)
             else:
